@@ -1051,36 +1051,17 @@ func (e *Env) call(n *ast.CallExpr) *Value {
 		ts := x.flatten(v)
 		return intLeaf(ts[0])
 	}
-	// Go function with a `pure`/`purefn` contract: its result is a function of the arguments.
-	// Forms: f(args), T.M(recv, args), alias.f(args), alias.T.M(recv, args)
-	if fc := e.pureContract(n.Fun); fc != nil {
-		fname = fc.Key
-		var terms []string
-		var all []*Value
-		for _, a := range n.Args {
-			v := e.eval(a)
-			all = append(all, v)
-			terms = append(terms, x.flatten(v)...)
-		}
-		fn := x.eng.funcOfContract(fc)
-		if fn == nil || fn.Signature.Results().Len() < 1 {
-			e.fail("pure function %s cannot be bound", fname)
-		}
-		rt := fn.Signature.Results().At(0).Type()
-		if len(terms) == 0 {
-			e.fail("pure function %s without arguments in a contract", fname)
-		}
-		return mkValue(rt, func(l Leaf) string {
-			idx := 0
-			for i, ll := range leaves(rt) {
-				if ll.Path == l.Path {
-					idx = i
-				}
+	// res1(f(args)): the second result of a pure Go function
+	if fname == "res1" && len(n.Args) == 1 {
+		if ce, ok := n.Args[0].(*ast.CallExpr); ok {
+			if v := e.pureCall(ce, 1); v != nil {
+				return v
 			}
-			name := fmt.Sprintf("pure_%s_0_%d", smtName(fc.PkgPath+"."+fc.Key), idx)
-			x.globalDecl(name, fmt.Sprintf("(declare-fun %s (%s) %s)", name, strings.TrimSpace(strings.Repeat("Int ", len(terms))), l.Sort))
-			return fmt.Sprintf("(%s %s)", name, strings.Join(x.intTerms(terms, all), " "))
-		})
+		}
+		e.fail("res1() needs a call of a pure function")
+	}
+	if v := e.pureCall(n, 0); v != nil {
+		return v
 	}
 	// spec function?
 	if sf, ok := x.eng.cs.Specs[fname]; ok {
@@ -1104,6 +1085,43 @@ func (e *Env) call(n *ast.CallExpr) *Value {
 	}
 	e.fail("call to %s not supported in contracts", exprString(n.Fun))
 	return nil
+}
+
+// pureCall: Go function with a `pure`/`purefn` contract: its ri-th result is a function of the arguments.
+// Forms: f(args), T.M(recv, args), alias.f(args), alias.T.M(recv, args). nil when n.Fun is not such a function.
+func (e *Env) pureCall(n *ast.CallExpr, ri int) *Value {
+	x := e.x
+	fc := e.pureContract(n.Fun)
+	if fc == nil {
+		return nil
+	}
+	fname := fc.Key
+	var terms []string
+	var all []*Value
+	for _, a := range n.Args {
+		v := e.eval(a)
+		all = append(all, v)
+		terms = append(terms, x.flatten(v)...)
+	}
+	fn := x.eng.funcOfContract(fc)
+	if fn == nil || fn.Signature.Results().Len() <= ri {
+		e.fail("pure function %s cannot be bound", fname)
+	}
+	rt := fn.Signature.Results().At(ri).Type()
+	if len(terms) == 0 {
+		e.fail("pure function %s without arguments in a contract", fname)
+	}
+	return mkValue(rt, func(l Leaf) string {
+		idx := 0
+		for i, ll := range leaves(rt) {
+			if ll.Path == l.Path {
+				idx = i
+			}
+		}
+		name := fmt.Sprintf("pure_%s_%d_%d", smtName(fc.PkgPath+"."+fc.Key), ri, idx)
+		x.globalDecl(name, fmt.Sprintf("(declare-fun %s (%s) %s)", name, strings.TrimSpace(strings.Repeat("Int ", len(terms))), l.Sort))
+		return fmt.Sprintf("(%s %s)", name, strings.Join(x.intTerms(terms, all), " "))
+	})
 }
 
 func exprString(ex ast.Expr) string {
